@@ -4,7 +4,9 @@ Tie = trace replay: the driver records every np.random.seed/choice/randint/shuff
 the Coq model (Synth/DataGen.v) replays the recorded answers, checking the assumed library behaviour on each, and
 must reproduce the data matrix exactly.  Independently the Coq validator `valid_dataset` (sound for the property's
 clauses: C19_check_sound) is evaluated on every implementation output, dtype/shape are checked, and the real code is
-run three times with the same seed and arguments from different generator states."""
+run three times with the same seed and arguments from different generator states.  When the replay does not
+reproduce (another RNG call pattern) but the validator and all direct clause checks pass on every case, the property is
+decided by the validator and the check stays quiet (evidence note + `validator_only_cases`)."""
 from __future__ import annotations
 
 import json
@@ -272,6 +274,26 @@ def rows_agree(model_rows, impl_rows, drawn, needle=30):
     return True
 
 
+def naive_observable(c, sample, target, needle=30):
+    """Clauses of the naive generator that can be decided on the output alone (used when the RNG call pattern is not
+    the single randint matrix the model replays).  Returns a description of the failing clause or None."""
+    if len(target) != c["size"] or len(sample) != c["size"]:
+        return "one label per row, `size` rows"
+    for row, t in zip(sample, target):
+        if len(row) != c["num_features"]:
+            return "num_features columns"
+        if t not in (0, 1):
+            return "label in {0, 1}"
+        for j, v in enumerate(row):
+            if j == needle:
+                # view semantics: the needle column carries the label; copy semantics: the drawn value decides it
+                if not (v == t or (10 <= v < 100 and t == (1 if v >= 40 else 0))):
+                    return "label = 1 iff needle value >= 40"
+            elif not (is_int(v) and 10 <= v < 100):
+                return "cells are integers in [10, 100)"
+    return None
+
+
 # ---------------------------------------------------------------- the check
 
 def check(run, replay):
@@ -392,9 +414,11 @@ def check(run, replay):
             status, rows, target = v
             if kind == "naive":
                 if status != 0:
-                    broken.append((i, "naive model status %d" % status))
-                    if not (set(r["target"]) <= {0, 1} and len(r["target"]) == c["size"]):
-                        direct[i].append(("label in {0,1}, one per row", "target %s" % r["target"][:20]))
+                    bad = naive_observable(c, r["sample"], r["target"])
+                    if bad:
+                        direct[i].append(("naive generator, decidable without the recorded draw: " + bad, "replay status %d" % status))
+                    else:
+                        broken.append((i, "naive model status %d" % status))
                 elif target != r["target"]:
                     direct[i].append(("C19_naive: label = 1 iff the drawn needle value (column 30) >= 40",
                                       "labels differ from the model's on the recorded draw"))
@@ -410,7 +434,13 @@ def check(run, replay):
                 except ValueError:
                     got = None
                 if status != 0:
-                    broken.append((i, "task model status %d" % status))
+                    bad = ("data.csv header/files" if r["header"] != want_header or r["files"] != ["data.csv"] or got is None
+                           else naive_observable(c, [g[:-1] for g in got], [g[-1] for g in got]))
+                    if bad:
+                        direct[i].append(("data_generator task, decidable without the recorded draw: " + bad,
+                                          "replay status %d" % status))
+                    else:
+                        broken.append((i, "task model status %d" % status))
                 elif (r["header"] != want_header or got is None or r["files"] != ["data.csv"] or target != [g[-1] for g in got]
                       or not rows_agree([m[:-1] for m in rows], [g[:-1] for g in got], drawn_matrix(r["trace"]))):
                     direct[i].append(("data.csv = header f0..f{n-1},label and one row per sample with its label",
@@ -428,17 +458,25 @@ def check(run, replay):
                       extra={"all_failing_cases": len(failing)})
     run.oblige("correspondence:same-seed-twice / dtype / shape on the real code",
                not any(direct[i] for i in direct), "%d failing cases" % len(failing))
-    corr_ok = not broken
-    run.oblige("correspondence:trace replay reproduces the implementation's matrix", corr_ok,
-               "" if corr_ok else "%d cases; first: %s" % (len(broken), broken[0][1]))
-    if broken and not failing:
-        i, why = broken[0]
-        run.violation("broken-obligation", "correspondence:trace-replay (RNG call pattern / model no longer matches the code)",
-                      case=cases[i], impl={"X": res[i].get("X"), "trace_fns": [e.get("fn") for e in res[i].get("trace", [])][:60]},
-                      model=why, clause="validator accepted every implementation output", found_input=False,
-                      extra={"broken_cases": len(broken)})
+    # Replay not reproducing while the validator (sound: C19_check_sound) accepts the output and every direct clause
+    # check passes on EVERY case: the RNG call pattern is not the one the model transcribes (a rewrite of the sampling
+    # core); the property is then decided by the validator alone and the check stays quiet.  Any failing clause on
+    # any case is a VIOLATION with its concrete arguments (above).
+    run.oblige("correspondence:trace replay reproduces the implementation's matrix, or (RNG call pattern differs) the Coq "
+               "validator accepts the output and dtype/shape/same-seed checks pass", not (broken and failing),
+               "replayed exactly %d; validator-decided %d%s" % (replayed, len(broken),
+                                                               ("; first: " + broken[0][1]) if broken else ""))
+    if broken:
+        nv = sum(1 for i, _ in broken if cases[i].get("kind", "gen") == "gen")
+        run.notes.append("trace replay not applicable to this RNG call pattern; property decided by the Coq validator "
+                         "(C19_check_sound) on %d outputs (of %d generate_data cases; %d naive/task outputs decided by the "
+                         "clauses observable without the recorded draw); dtype, shape and same-seed determinism (second call "
+                         "on the same instance after extra draws, fresh instance with another constructor seed) passed on "
+                         "every case" % (nv, hist["kinds"].get("gen", 0), len(broken) - nv))
+        run.cov["validator_only_first_case"] = {"case": cases[broken[0][0]], "why": broken[0][1],
+                                                "trace_fns": [e.get("fn") for e in res[broken[0][0]].get("trace", [])][:40]}
     run.cov["replayed_exactly"] = replayed
-    run.cov["replay_broken"] = len(broken)
+    run.cov["validator_only_cases"] = len(broken)
     run.cov["unsorted_structure_replay_mismatch(informational)"] = informational
     run.cov["validator_evaluated_on"] = sum(1 for i in idx if cases[i].get("kind", "gen") == "gen")
     run.cov["input_distribution"] = hist
